@@ -199,13 +199,16 @@ var snippets = []string{
 	"$x ??= 1; $y .= \"s\"; $z *= 2; $w <<= 1; $v = $u?->a?->b ?? 0;",
 	"try { f(); } catch (A | B $e) { } for ($i = 0, $j = 1; $i < 2; $i++, $j--) { continue; }",
 	"$h = <div class=\"a\">{$x}</div>; spawn f(1); $t = (int)$a + (string)$b . (float)$c;",
+	"for $v in [1, 2] { $s = $v; } for $k, $v in [3] { $s = $k; }",
+	"namespace N { $a = 1; function nf() { return 2; } }",
+	"class DB<T> { public T $v; } $x = DB<int>(); $y = new DB<string>(); $z = func_num_args();",
 }
 
 // whole lexemes for the pool mode of H_snip: special variables (they parse to dedicated nodes),
 // keywords and multi-byte operators
 var lexemePool = []string{
 	"$_GET", "$this", "$GLOBALS", "$argv", "$_SERVER", "&$r", "...$r", "static", "self", "parent", "null", "new", "fn", "function",
-	"?->", "::", "=>", "??", "**", "<=>", "<<<", "?>", "<?php", "/*", "#[", "@{", "${", "\\", "like", "spawn", "yield", "int", "class",
+	"?->", "::", "=>", "??", "**", "<=>", "<<<", "?>", "<?php", "/*", "#[", "@{", "${", "\\", "like", "spawn", "yield", "int", "class", "void", "mixed", "in",
 }
 
 func H_snip() {
